@@ -740,6 +740,10 @@ func goCode(root string, unit string) string {
 			"Actor":    {"SelectLink", "ProfilePic", "Banner"},
 		}, "pub/link.go")
 		emit("pub/post.go, pub/activity.go, pub/actor.go (link numbering and selection)", text, errs)
+	case "client":
+		header("Model.GoSem", "Model.GoJson", "Model.GoSlices", "Model.GoPtr", "Generated.GoObject")
+		text, errs := translateClient(root, "client/client.go", []string{"FetchUnknown"})
+		emit("client/client.go (FetchUnknown)", text, errs)
 	default:
 		b.WriteString("-- unknown unit " + unit + "\n")
 	}
